@@ -35,6 +35,16 @@ run $S/C18/patch.diff C18
 run $S/C19/patch.diff C19
 run $S/C19/patch2.diff C19
 run $S/C20/patch.diff C20
+run $S/C01b/patch.diff C01 C09
+run $S/C02b/patch.diff C02 C03
+run $S/C03b/patch.diff C03
+run $S/C05b/patch.diff C05 C06
+run $S/C06b/patch.diff C06
+run $S/C07b/patch.diff C07
+run $S/C15b/patch.diff C15 C08
+run $S/C16b/patch.diff C16
+run $S/C19b/patch.diff C19
+run $S/C20b/patch.diff C20
 run $S/extra/m1-linkttl.diff C01
 run $S/extra/m2-cachekey-format.diff C12
 run $S/extra/m3-cacheadd-nolock.diff C14 C12
